@@ -698,4 +698,79 @@ theorem exclusiveChk_sound (alts : List Alt) (h : exclusiveChk alts = true) : Ex
     exact (List.prefix_of_prefix_length_le hma.1 hmb.1 (Nat.le_of_eq hl)).eq_of_length hl
   · exact (shadow b hb a ha hl hmb hma).elim
 
+/-! ### scope of a custom substitution function, pretty-printing -/
+
+theorem outputReady_mapScope (c : Cfg) (i : Subst → PStr → PStr) (h : c.entity_substitution ≠ .none) (par : Option PStr)
+    (k : StrKind) (v : PStr) :
+    outputReady c i par k v = render (plain c) i par
+      (mapScope c.cdata_containing_tags c.empty_attributes_are_booleans (i c.entity_substitution) par (.str k v)) := by
+  have := render_mapScope c i h par (.str k v)
+  simpa [render] using this
+
+mutual
+theorem prettyItems_mapScope (c : Cfg) (i : Subst → PStr → PStr) (h : c.entity_substitution ≠ .none) (lv : Nat) (lit : Bool)
+    (par : Option PStr) (n : Node) :
+    prettyItems c i lv lit par n
+      = prettyItems (plain c) i lv lit par
+          (mapScope c.cdata_containing_tags c.empty_attributes_are_booleans (i c.entity_substitution) par n) := by
+  cases n with
+  | str k v =>
+    have h1 := outputReady_mapScope c i h par k v
+    simp only [mapScope] at h1 ⊢
+    by_cases hc : (k.verbatim || inCdata c.cdata_containing_tags par) = true
+    · simp only [hc, if_true, render] at h1 ⊢
+      simp only [prettyItems, h1]
+    · simp only [hc] at h1 ⊢
+      simp only [Bool.false_eq_true, if_false, prettyItems, h1, render]
+  | tag nm p as cbe pre ks =>
+    simp only [prettyItems, mapScope, mapScopeL_isEmpty, ← formatTag_mapAttr c i h,
+      ← prettyItemsL_mapScope c i h (lv + 1) _ (some nm) ks]
+theorem prettyItemsL_mapScope (c : Cfg) (i : Subst → PStr → PStr) (h : c.entity_substitution ≠ .none) (lv : Nat) (lit : Bool)
+    (par : Option PStr) (l : List Node) :
+    prettyItemsL c i lv lit par l
+      = prettyItemsL (plain c) i lv lit par
+          (mapScopeL c.cdata_containing_tags c.empty_attributes_are_booleans (i c.entity_substitution) par l) := by
+  cases l with
+  | nil => simp [prettyItemsL, mapScopeL]
+  | cons k ks =>
+    simp only [prettyItemsL, mapScopeL, ← prettyItems_mapScope c i h lv lit par k, ← prettyItemsL_mapScope c i h lv lit par ks]
+end
+
+/-! ### flavour walk and sessions -/
+
+theorem isXmlOf_eq (chain : List (Option Bool)) (r : Bool) : isXmlOf chain r = ((chain.filterMap id).head?).getD r := by
+  induction chain with
+  | nil => simp [isXmlOf]
+  | cons x xs ih => cases x <;> simp [isXmlOf, ih]
+
+theorem runSession_docs (R X : List (Option PStr × Cfg)) (i : Subst → PStr → PStr) (ops : List HOp) :
+    ∀ docs, (runSession R X i docs ops).1 = (runSession R X i docs (ops.filter HOp.isEdit)).1 := by
+  induction ops with
+  | nil => intro docs; rfl
+  | cons op ops ih =>
+    intro docs
+    cases op with
+    | edit f => simp only [runSession, HOp.isEdit, List.filter_cons_of_pos]; exact ih (f docs)
+    | render d p a m =>
+      simp only [runSession, HOp.isEdit, Bool.false_eq_true, not_false_eq_true, List.filter_cons_of_neg]; exact ih docs
+
+theorem runSession_last (R X : List (Option PStr × Cfg)) (i : Subst → PStr → PStr) (ops : List HOp) (d : Nat) (p : List Nat)
+    (a : FmtArg) (m : Mode) :
+    ∀ docs, (runSession R X i docs (ops ++ [.render d p a m])).2.getLast?
+      = some (match ((runSession R X i docs ops).1)[d]? with
+              | some doc => doc.renderAt R X p a i m
+              | none => .badReceiver) := by
+  induction ops with
+  | nil => intro docs; simp [runSession]; rfl
+  | cons op ops ih =>
+    intro docs
+    cases op with
+    | edit f => simp only [List.cons_append, runSession]; exact ih (f docs)
+    | render d' p' a' m' =>
+      simp only [List.cons_append, runSession]
+      have := ih docs
+      cases h : (runSession R X i docs (ops ++ [.render d p a m])).2 with
+      | nil => rw [h] at this; simp at this
+      | cons y ys => rw [h] at this; simp only [List.getLast?_cons_cons]; exact this
+
 end BS.Formatter
